@@ -298,6 +298,24 @@ func (os *OutputStream) GetNext(ctx context.Context, lastseen robust.Id) []Messa
 			os.messagesMu.Unlock()
 			return next.Messages
 		}
+		if current.NextID < math.MaxUint64 {
+			// The successor of the message we are waiting behind was
+			// already deleted again (compaction), so following NextID
+			// will never succeed. Search for a more recent message.
+			var key [8]byte
+			binary.BigEndian.PutUint64(key[:], current.Messages[0].Id.Id+1)
+			i := os.db.NewIterator(&util.Range{
+				Start: key[:],
+				Limit: nil,
+			}, nil)
+			if i.First() {
+				mb := unmarshalMessageBatch(i.Value())
+				i.Release()
+				os.messagesMu.Unlock()
+				return mb.Messages
+			}
+			i.Release()
+		}
 		select {
 		case <-ctx.Done():
 			os.messagesMu.Unlock()
